@@ -115,7 +115,7 @@ func genC02(tier string, r *core.Rand) C02Plan {
 	}
 	p.MaxCuts = 2500
 	if tier == "thorough" {
-		p.MaxCuts = 20000
+		p.MaxCuts = 8000
 	}
 	return p
 }
